@@ -2,12 +2,14 @@
 // names the key that did the work.
 //
 // Model checking in the bounded-exhaustive form (engine E2-space):
-//   (a) sections keysets/<class>: ALL keysets of size 1 and 2 over {key types of the class} x {variants the
-//       type admits} x {ENABLED, DISABLED, DESTROYED} x ids {0, 1, 0xFFFFFFFF (+ 0x01000000 thorough, fast classes)} x material {0,1} x every
-//       admissible primary x both orders (distinct ids), size 3 over a reduced positional alphabet;
-//   (b) sections rotation/<class> (and rotation4/<class>, thorough): BFS to fixpoint over keyset.Manager histories (Add <= 3 / 4 keys,
-//       SetPrimary / Enable / Disable / Delete of the i-th created key); every reached state with a
-//       primary is checked with the universe of all keys that ever existed plus foreign keys.
+//
+//	(a) sections keysets/<class>: ALL keysets of size 1 and 2 over {key types of the class} x {variants the
+//	    type admits} x {ENABLED, DISABLED, DESTROYED} x ids {0, 1, 0xFFFFFFFF (+ 0x01000000 thorough, fast classes; quick thins size 2 of the public-key classes to {1, 0xFFFFFFFF})} x material {0,1} x every
+//	    admissible primary x both orders (distinct ids), size 3 over a reduced positional alphabet;
+//	(b) sections rotation/<class> (and rotation4/<class>, thorough): BFS to fixpoint over keyset.Manager histories (Add <= 3 / 4 keys,
+//	    SetPrimary / Enable / Disable / Delete of the i-th created key); every reached state with a
+//	    primary is checked with the universe of all keys that ever existed plus foreign keys.
+//
 // For every keyset the wrapped primitive is built with tink's factory, its output is judged (framing
 // of the primary; accepted by exactly the single-key primitives the model names) and it is probed
 // with outputs of EVERY key of a universe (the keyset's keys and foreign keys: same id+variant but
@@ -580,7 +582,10 @@ func (c *class) alphabet(thorough bool, size, pos int) []letter {
 	}
 	key := ak{c, thorough, size, pos}
 	if size < 3 {
-		key.pos, key.size = 0, 1 // sizes 1 and 2 share one alphabet
+		key.pos = 0
+		if thorough || !c.slow {
+			key.size = 1 // sizes 1 and 2 share one alphabet
+		}
 	}
 	if v, ok := alphaCache.Load(key); ok {
 		return v.([]letter)
@@ -590,6 +595,9 @@ func (c *class) alphabet(thorough bool, size, pos int) []letter {
 		ids := []uint32{0, 1, 0xFFFFFFFF}
 		if thorough && !c.slow {
 			ids = append(ids, 0x01000000) // TINK prefix 01 01 00 00 00 / CRUNCHY prefix 00 01 00 00 00
+		}
+		if !thorough && c.slow && size == 2 {
+			ids = []uint32{1, 0xFFFFFFFF} // quick tier, classes with slow public-key operations
 		}
 		for sh := range c.shapes {
 			for _, st := range []int{ref.SelEnabled, ref.SelDisabled, ref.SelDestroyed} {
